@@ -4,6 +4,10 @@ pub mod c04;
 pub mod c06;
 pub mod c11;
 pub mod c12;
+pub mod c13;
+pub mod c14;
+pub mod robs_colls;
+pub mod robs_common;
 pub mod c19;
 pub mod rtc_common;
 pub mod c15;
@@ -18,6 +22,8 @@ pub fn all() -> Vec<Check> {
     v.extend(c06::checks());
     v.extend(c11::checks());
     v.extend(c12::checks());
+    v.extend(c13::checks());
+    v.extend(c14::checks());
     v.extend(c19::checks());
     v.extend(c15::checks());
     v.extend(c16::checks());
